@@ -7,6 +7,14 @@ E3 toy-musig: every pair / triple of secrets of the toy group x nonce sets x mes
 E1 real-musig: key sets of size 2..3 (thorough ..5) on secp256k1 covering the parity combinations.
 E1 real-trees: every (k, n), n <= 4 (thorough 5): leaves <-> k-subsets bijection, every leaf spent by its own
    subset verifies under the library and under the reference consensus verifier; spent by another subset: rejected.
+E1 spend-variants: the owning subset's spend under every BIP341 hash type, input position, signature-list order.
+E1 composite-trees: single_leaf / musig_and_single_leaf_tree / everything_tree / degrading_multisig_tree: every leaf
+   is spendable by its subset (library and reference).
+E1 tree-parity-walk: per (k, n, kind) key sets rep = 0, 1, .. until both output-key and both internal-key parities
+   were spent.
+
+Nonce vectors whose first / second components cancel (sum = infinity) are part of the toy and the real alphabets: the
+session is degenerate only when the final nonce R = S1 + h*S2 itself is infinite.
 """
 import itertools
 
@@ -21,7 +29,17 @@ def pt(P):
     return None if isinstance(P, Rejected) or P is None or P.x is None else (P.x.num, P.y.num)
 
 
-def musig_scenario(res, pecc, taproot, c, toy, secrets, nonces, msg, root, vc, tag, faults=True, shared=None):
+WIDE_FAULTS = ("negate", "dup", "wrong-msg", "wrong-root", "wrong-k", "plus-n")
+
+
+def ref_nonce_coef(c, S1, S2, aggx, msg):
+    """BIP327 nonce coefficient b = H_MuSig/noncecoef(cbytes_ext(S1) || cbytes_ext(S2) || xbytes(P) || m) mod n, the
+    point at infinity serialised as 33 zero bytes (P: the untweaked aggregate key, which is what the library hashes)."""
+    ext = lambda P: b"\x00" * 33 if P is None else bytes([2 + (P[1] & 1)]) + ec.b32(P[0])
+    return int.from_bytes(ec.tagged("MuSig/noncecoef", ext(S1) + ext(S2) + ec.b32(aggx) + msg), "big") % c.n
+
+
+def musig_scenario(res, pecc, taproot, c, toy, secrets, nonces, msg, root, vc, tag, faults=True, shared=None, wide=False):
     """One complete MuSig run through the library API. secrets: list of ints; nonces: list of (k1, k2).
     shared: dict kept by the caller across scenarios of one key set, so that ONE MuSigTapScript object (and one set
     of key objects) serves plain and tweaked sessions in turn — state kept on the object between sessions is exposed."""
@@ -35,7 +53,7 @@ def musig_scenario(res, pecc, taproot, c, toy, secrets, nonces, msg, root, vc, t
     points = [p.point for p in privs]
     xs = [c.mulg(d)[0] for d in secrets]
     if len(set(xs)) != len(xs):
-        res.skip("two participants share an x-only key (d and n-d): not a set of distinct keys")
+        res.skip("two participants share an x-only key (d and n-d): P and -P are the same BIP340 x-only public key, so this is not a set of distinct keys")
         return
     if shared is not None and "musig" in shared:
         musig = shared["musig"]
@@ -73,28 +91,56 @@ def musig_scenario(res, pecc, taproot, c, toy, secrets, nonces, msg, root, vc, t
         res.skip("zero nonce")
         return
 
-    def run(omit=None, alter=None):
+    other_msg = bytes([msg[0] ^ 1]) + msg[1:]
+    other_root = b"" if root else b"\xdd" * 32
+
+    def run(omit=None, alter=None, fault=None):
+        """fault = (kind, i): participant i's contribution is wrong in the named way (plus-n: the total is s + n)."""
         sums = musig.nonce_sums(nonce_points)
         r = musig.compute_r(sums, msg)
         s_sum = 0
         for i, (priv, ns) in enumerate(zip(privs, nonces)):
             if i == omit:
                 continue
-            k = musig.compute_k(ns, sums, msg)
-            s = musig.sign(priv, k, r, msg, root)
+            kind = fault[0] if fault is not None and fault[1] == i else None
+            k = musig.compute_k(nonces[(i + 1) % len(nonces)] if kind == "wrong-k" else ns, sums, msg)
+            s = musig.sign(priv, k, r, other_msg if kind == "wrong-msg" else msg, other_root if kind == "wrong-root" else root)
             if i == alter:
                 s = (s + 1) % n
+            if kind == "negate":
+                s = (-s) % n
+            elif kind == "dup":
+                s = 2 * s
+            elif kind == "plus-n":
+                s = s + n
             s_sum += s
         return musig.get_signature(s_sum, r, msg, root).serialize()
 
-    sums = attempt(musig.nonce_sums, nonce_points)
-    if isinstance(sums, Rejected) or pt(sums[0]) is None or pt(sums[1]) is None:
-        res.ok("degenerate: nonce sum at infinity")
+    # reference nonce sums from the scalars: a session is degenerate only if the FINAL nonce R = S1 + h*S2 is infinite
+    S1 = c.mulg(sum(k1 for k1, _ in nonces) % n) if sum(k1 for k1, _ in nonces) % n else None
+    S2 = c.mulg(sum(k2 for _, k2 in nonces) % n) if sum(k2 for _, k2 in nonces) % n else None
+    if S1 is None and S2 is None:
+        res.ok("degenerate: both nonce sums at infinity (R is infinite for every coefficient)")
         return
-    r = attempt(musig.compute_r, sums, msg)
-    if isinstance(r, Rejected) or pt(r) is None:
+    cancel = "S1=inf" if S1 is None else "S2=inf" if S2 is None else None
+    sums = attempt(musig.nonce_sums, nonce_points)
+    r = sums if isinstance(sums, Rejected) else attempt(musig.compute_r, sums, msg)
+    if isinstance(r, Rejected):
+        # the library cannot produce R: acceptable only if R really is infinite (reference coefficient, BIP327)
+        h = ref_nonce_coef(c, S1, S2, agg[0], msg)
+        R = c.add(S1, c.mul(h, S2))  # None = infinity throughout the reference
+        if R is None:
+            res.ok("degenerate: aggregate nonce at infinity (reference)")
+        elif cancel:
+            res.violation(f"C13/{tag}/nonce-sum-at-infinity", vc, repr(r), "valid signature", f"the participants' nonce components cancel ({cancel}) while the final nonce R = S1 + h*S2 is a finite point: the session cannot be run (nonce_sums/compute_r raise)")
+        else:
+            res.violation(f"C13/{tag}/honest-fails", vc, repr(r), "valid signature", "nonce_sums/compute_r raise although the final nonce is a finite point")
+        return
+    if pt(r) is None:
         res.ok("degenerate: aggregate nonce at infinity")
         return
+    if cancel:
+        res.notes["cancelling_nonce_sessions"] = res.notes.get("cancelling_nonce_sessions", 0) + 1
     sig = attempt(run)
     if isinstance(sig, Rejected):
         cls = "honest-fails"
@@ -123,6 +169,20 @@ def musig_scenario(res, pecc, taproot, c, toy, secrets, nonces, msg, root, vc, t
                 res.ok(f"{kind} yields a coincidentally valid signature (reference agrees)")
             else:
                 res.violation(f"C13/{tag}/{kind}-accepted", vc, bad, "rejection", f"{kind} of participant {i}'s partial signature returned an invalid aggregate as if valid")
+    if not wide:
+        return
+    # wider fault model: the aggregate returned for a wrong contribution must be one the reference accepts
+    for i in range(len(secrets)):
+        for kind in WIDE_FAULTS:
+            if kind == "plus-n" and i:
+                continue
+            bad = attempt(run, fault=(kind, i))
+            if isinstance(bad, Rejected):
+                res.ok(f"fault {kind}: rejected")
+            elif c.schnorr_verify(pk, msg, bad):
+                res.ok(f"fault {kind}: aggregate is valid all the same (reference agrees)", nontrivial=("fault-valid", tag, kind) if kind == "plus-n" else None)
+            else:
+                res.violation(f"C13/{tag}/fault-accepted/{kind}", vc, bad, "rejection", f"participant {i}'s contribution with fault '{kind}' returned an invalid aggregate as if valid")
 
 
 def ref_tweak(c, px, root, toy):
@@ -144,17 +204,31 @@ def gen_toy_musig(toy):
         n = toy[1]
         cases = []
         for a, b in itertools.combinations(range(1, n), 2):
-            cases.append({"toy": list(toy), "secrets": [a, b]})
+            cases.append({"toy": list(toy), "secrets": [a, b], "tier": tier})
         step = 1 if tier == "thorough" else 8
         triples = list(itertools.combinations(range(1, n), 3))
         for t in triples[::step]:
-            cases.append({"toy": list(toy), "secrets": list(t)})
+            cases.append({"toy": list(toy), "secrets": list(t), "tier": tier})
         return cases
 
     return g
 
 
 TOY_NONCE_SET = [(1, 2), (3, 5), (7, 4)]
+TOY_MSGS = [b"\x00" * 32, b"\x07" * 32, b"\xff" * 32]
+TOY_ROOTS = (b"", b"\xaa" * 32, b"\xbb" * 32)
+
+
+def cancelling(nn, n):
+    """From one nonce vector: the last participant's first / second / both components replaced by the negated sum of
+    the others', so that S1 = inf, S2 = inf, both = inf (all values stay in [1, n-1]; a zero would be out of range)."""
+    out = []
+    a = (-sum(k1 for k1, _ in nn[:-1])) % n
+    b = (-sum(k2 for _, k2 in nn[:-1])) % n
+    for k1, k2 in ((a, nn[-1][1]), (nn[-1][0], b), (a, b)):
+        if k1 and k2:
+            out.append(nn[:-1] + [(k1, k2)])
+    return out
 
 
 def run_toy_musig(case):
@@ -167,14 +241,24 @@ def run_toy_musig(case):
     secrets = case["secrets"]
     vc = {"engine": f"toy-musig-{toy[0]}", "toy": list(toy), "case": case}
     n = c.n
-    per = TOY_NONCE_SET[:2]
+    thorough = case.get("tier") == "thorough"
+    # pairs: the full nonce set; triples: two nonce pairs per participant
+    per = TOY_NONCE_SET if len(secrets) == 2 else TOY_NONCE_SET[:2]
+    msgs = TOY_MSGS if thorough else TOY_MSGS[:2]
     shared = {}
-    for nonces in itertools.product(per, repeat=len(secrets)):
+    first = None
+    for vi, nonces in enumerate(itertools.product(per, repeat=len(secrets))):
         # distinct participants use distinct nonce pairs shifted by their index
         nn = [((k1 + 5 * i) % n or 1, (k2 + 11 * i) % n or 1) for i, (k1, k2) in enumerate(nonces)]
-        for msg in (b"\x00" * 32, b"\x07" * 32):
-            for root in (b"", b"\xaa" * 32, b"\xbb" * 32):
-                musig_scenario(res, pecc, taproot, c, toy, secrets, nn, msg, root, dict(vc, case=dict(case, at=[list(map(list, nn)), msg.hex(), root.hex()])), f"toy-musig", shared=shared)
+        first = first or nn
+        for mi, msg in enumerate(msgs):
+            for root in TOY_ROOTS:
+                musig_scenario(res, pecc, taproot, c, toy, secrets, nn, msg, root, dict(vc, case=dict(case, at=[list(map(list, nn)), msg.hex(), root.hex()])), f"toy-musig", shared=shared, wide=vi == 0 and (thorough or mi == 0))
+    # nonce vectors whose components cancel (quick: first message, roots none / A)
+    for nn in cancelling(first, n):
+        for msg in msgs if thorough else msgs[:1]:
+            for root in TOY_ROOTS if thorough else TOY_ROOTS[:2]:
+                musig_scenario(res, pecc, taproot, c, toy, secrets, nn, msg, root, dict(vc, case=dict(case, at=[list(map(list, nn)), msg.hex(), root.hex()])), f"toy-musig", faults=thorough, shared=shared)
     return res
 
 
@@ -187,6 +271,30 @@ def gen_real_musig(tier, seed):
         for rep in range(reps):
             secrets = [filler_int(seed, f"c13-{sz}-{rep}", i, 1, N - 1) for i in range(sz)]
             cases.append({"secrets": [str(s) for s in secrets], "rep": rep, "roots": ["", "bb" * 32, "cc" * 32, ""]})
+    # boundary values of the quantified ranges and nonce vectors whose components cancel (explicit nonces / message)
+    a, b, a2, b2, a3, b3 = (filler_int(seed, "c13-bnd", i, 2, N - 2) for i in range(6))
+    f2 = [filler_int(seed, "c13-bnd-key", i, 1, N - 1) for i in range(3)]
+    two = ["", "bb" * 32]
+    bnd = [
+        ("message = n", f2[:2], [(a, b), (a2, b2)], "%064x" % N, two, False),
+        ("secrets 1, n-2; nonces 1, n-1, 2, n-2; message ff..", [1, N - 2], [(1, N - 1), (2, N - 2)], "ff" * 32, two, True),
+        ("secrets n-1, 2, 3; nonces n-1, 1, ..; message 00..", [N - 1, 2, 3], [(N - 1, 1), (N - 2, 2), (a, b)], "00" * 32, two, False),
+        ("first nonce components cancel (S1 = inf)", f2[:2], [(a, b), (N - a, b2)], "%064x" % (N - 1), two, True),
+        ("second nonce components cancel (S2 = inf)", f2[:2], [(a, b), (a2, N - b)], "ff" * 32, two, False),
+        ("both nonce components cancel", f2[:2], [(a, b), (N - a, N - b)], "11" * 32, [""], False),
+        ("three participants, S1 = inf", f2, [(a, b), (a2, b2), ((-a - a2) % N, b3)], "22" * 32, two, False),
+        ("three participants, S2 = inf", f2, [(a, b), (a2, b2), (a3, (-b - b2) % N)], "33" * 32, ["cc" * 32], False),
+    ]
+    if tier == "thorough":
+        f5 = [filler_int(seed, "c13-bnd-key5", i, 1, N - 1) for i in range(5)]
+        fl = [filler_int(seed, "c13-bnd-n5", i, 2, N - 2) for i in range(10)]
+        bnd += [
+            ("five participants, S1 = inf", f5, [(fl[i], fl[5 + i]) for i in range(4)] + [((-sum(fl[:4])) % N, fl[9])], "44" * 32, two, False),
+            ("four participants, S2 = inf", f5[:4], [(fl[i], fl[5 + i]) for i in range(3)] + [(fl[4], (-sum(fl[5:8])) % N)], "55" * 32, two, False),
+            ("secrets 2, n-1; nonces n-1, n-2, 2, 3; three roots", [2, N - 1], [(N - 1, N - 2), (2, 3)], "00" * 32, ["", "bb" * 32, "cc" * 32], True),
+        ]
+    for i, (label, secrets, nonces, msg, roots, faults) in enumerate(bnd):
+        cases.append({"secrets": [str(s) for s in secrets], "rep": 100 + i, "roots": roots, "nonces": [[str(k1), str(k2)] for k1, k2 in nonces], "msg": msg, "label": label, "faults": faults})
     return cases
 
 
@@ -196,12 +304,18 @@ def run_real_musig(case):
     res = Res()
     c = ec.SECP
     secrets = [int(s) for s in case["secrets"]]
-    nonces = [(filler_int(case["rep"], "c13k1", i, 1, N - 1), filler_int(case["rep"], "c13k2", i, 1, N - 1)) for i in range(len(secrets))]
-    msg = filler(case["rep"], "c13msg", len(secrets))
+    if "nonces" in case:
+        nonces = [(int(k1), int(k2)) for k1, k2 in case["nonces"]]
+        msg = bytes.fromhex(case["msg"])
+    else:
+        nonces = [(filler_int(case["rep"], "c13k1", i, 1, N - 1), filler_int(case["rep"], "c13k2", i, 1, N - 1)) for i in range(len(secrets))]
+        msg = filler(case["rep"], "c13msg", len(secrets))
     shared = {}
     for j, root in enumerate(case["roots"]):
         vc = {"engine": "real-musig", "case": dict(case, roots=case["roots"][: j + 1])}
-        musig_scenario(res, pecc, taproot, c, None, secrets, nonces, msg, bytes.fromhex(root), vc, "real-musig", faults=len(secrets) <= 3 and j < 2, shared=shared)
+        faults = len(secrets) <= 3 and j < 2 and case.get("faults", True)
+        # the wider fault model (size 3: the tweaked session only): second key set (rep 1) of each size, and the boundary cases that inject faults at all
+        musig_scenario(res, pecc, taproot, c, None, secrets, nonces, msg, bytes.fromhex(root), vc, "real-musig", faults=faults, shared=shared, wide=faults and (case["rep"] == 1 or "nonces" in case) and (len(secrets) == 2 or j == 1))
     pars = tuple(c.mulg(d)[1] & 1 for d in secrets)
     res.ok(f"member parities {pars}")
     return res
@@ -211,7 +325,7 @@ def run_real_musig(case):
 def gen_real_trees(tier, seed):
     nmax = 4 if tier == "quick" else 5
     cases = []
-    for n in range(2, nmax + 1):
+    for n in range(1, nmax + 1):
         for k in range(1, n + 1):
             for kind in ("multi", "musig"):
                 if kind == "musig" and k < 2:
@@ -223,7 +337,7 @@ def gen_real_trees(tier, seed):
 
 def gen_tl_trees(tier, seed):
     nmax = 4 if tier == "quick" else 5
-    return [{"n": n, "k": k, "kind": kind, "variant": v} for n in range(2, nmax + 1) for k in range(1, n + 1) for kind in ("multi", "musig") if not (kind == "musig" and k < 2) for v in ("locktime", "sequence")]
+    return [{"n": n, "k": k, "kind": kind, "variant": v} for n in range(1, nmax + 1) for k in range(1, n + 1) for kind in ("multi", "musig") if not (kind == "musig" and k < 2) for v in ("locktime", "sequence")]
 
 
 def run_tl_trees(case):
@@ -236,7 +350,10 @@ def run_tl_trees(case):
     n, k, kind, variant = case["n"], case["k"], case["kind"], case["variant"]
     vc = {"engine": "timelock-trees", "case": case}
     points = [pecc.PrivateKey(d).point for d in tree_keys(n)]
-    trm = taproot.TapRootMultiSig(points, k)
+    trm = attempt(taproot.TapRootMultiSig, points, k)
+    if isinstance(trm, Rejected):
+        res.violation(f"C13/timelock-trees/construct/{'n=1' if n == 1 else 'n>1'}", vc, repr(trm), "TapRootMultiSig", f"TapRootMultiSig cannot be constructed for {k}-of-{n}")
+        return res
     build = trm.multi_leaf_tree if kind == "multi" else trm.musig_tree
     if variant == "locktime":
         tree = attempt(lambda: build(locktime=Locktime(500)))
@@ -262,8 +379,10 @@ def run_tl_trees(case):
     return res
 
 
-def tree_keys(n):
-    return [filler_int(n, "c13treekey", i, 1, N - 1) for i in range(n)]
+def tree_keys(n, rep=0):
+    """Key sets are fixed functions of (n, rep), never of the seed: rep 0 is the set every tree engine uses, rep >= 1
+    are the further sets of the parity walk."""
+    return [filler_int(n, "c13treekey" if rep == 0 else f"c13treekey-rep{rep}", i, 1, N - 1) for i in range(n)]
 
 
 def run_real_trees(case):
@@ -279,7 +398,10 @@ def run_real_trees(case):
     secrets = tree_keys(n)
     privs = [pecc.PrivateKey(d) for d in secrets]
     points = [p.point for p in privs]
-    trm = taproot.TapRootMultiSig(points, k)
+    trm = attempt(taproot.TapRootMultiSig, points, k)
+    if isinstance(trm, Rejected):
+        res.violation(f"C13/real-trees/construct/{'n=1' if n == 1 else 'n>1'}", vc, repr(trm), "TapRootMultiSig", f"TapRootMultiSig cannot be constructed for {k}-of-{n}")
+        return res
     tree = trm.multi_leaf_tree() if kind == "multi" else trm.musig_tree()
     leaves = tree.leaves()
     subsets = list(itertools.combinations(range(n), k))
@@ -386,14 +508,339 @@ def run_real_trees(case):
     return res
 
 
+# ------------------------------------------------------------------ spends of tree leaves: shared machinery
+AMOUNT = 100000
+HASH_TYPES = (0, 1, 2, 3, 0x81, 0x82, 0x83)
+
+
+def keys32(leaf):
+    return [cmd for cmd in leaf.tap_script.commands if isinstance(cmd, bytes) and len(cmd) == 32]
+
+
+def csv_operand(leaf):
+    """None, or the operand of a leading <v> OP_CHECKSEQUENCEVERIFY OP_DROP (decoded by the reference number decoder)."""
+    cmds = leaf.tap_script.commands
+    if len(cmds) >= 3 and cmds[1] == 0xB2 and cmds[2] == 0x75:
+        op = cmds[0]
+        if isinstance(op, int):
+            return op - 0x50 if 0x51 <= op <= 0x60 else 0
+        return interp.num_decode(op, 5)
+    return None
+
+
+def abstract_tx(tx):
+    return {
+        "version": tx.version,
+        "locktime": int(tx.locktime),
+        "segwit": True,
+        "ins": [{"prev": i.prev_tx, "index": i.prev_index, "script": i.script_sig.raw_serialize(), "seq": int(i.sequence), "witness": list(i.witness.items)} for i in tx.tx_ins],
+        "outs": [{"amount": o.amount, "script": o.script_pubkey.raw_serialize()} for o in tx.tx_outs],
+    }
+
+
+def tree_ctx(n, k, rep=0):
+    from buidl import pecc, taproot
+
+    secrets = tree_keys(n, rep)
+    privs = [pecc.PrivateKey(d) for d in secrets]
+    points = [p.point for p in privs]
+    return secrets, privs, points, attempt(taproot.TapRootMultiSig, points, k)
+
+
+def leaf_catalog(secrets, points, sizes, with_musig):
+    """(kind, key material in the leaf) -> the subset of key indices it belongs to.  Member x-only keys by the reference;
+    the aggregate of a subset is the library's own MuSigTapScript key (its validity is what the musig engines decide)."""
+    from buidl import taproot
+
+    xs = [ec.b32(ec.SECP.mulg(d)[0]) for d in secrets]
+    cat = {}
+    for m in sizes:
+        for sub in itertools.combinations(range(len(secrets)), m):
+            cat[("multi", frozenset(xs[i] for i in sub))] = sub
+            if with_musig and m >= 2:
+                cat[("musig", taproot.MuSigTapScript([points[i] for i in sub]).point.xonly())] = sub
+    return cat
+
+
+def classify(cat, leaf):
+    ks = keys32(leaf)
+    if len(ks) == 1 and ("musig", ks[0]) in cat:
+        return "musig", cat[("musig", ks[0])]
+    return "multi", cat.get(("multi", frozenset(ks)))
+
+
+def spend_leaf(tree, internal, leaf, kind, privs, points, members, signers, ht=0, nin=1, idx=0, nout=1, seq=0xFFFFFFFF, order=None, salt=0):
+    """Spend `leaf` of `tree` (internal key `internal`) in input `idx` of a transaction with nin inputs / nout outputs.
+    members: key indices the leaf consists of; signers: key indices that sign; order: permutation applied to the list of
+    signatures handed to finalize_p2tr_multisig.  Returns (tx, what the signing API reported, spent outputs)."""
+    from buidl import pecc, taproot
+    from buidl.script import P2TRScriptPubKey
+    from buidl.tx import Tx, TxIn, TxOut
+    from buidl.witness import Witness
+
+    spk = internal.p2tr_script(tree.hash())
+    ins = []
+    for j in range(nin):
+        ti = TxIn(bytes([0x42 + j]) * 32, j, sequence=seq)
+        ti._value = AMOUNT + j
+        ti._script_pubkey = spk
+        ins.append(ti)
+    outs = [TxOut(AMOUNT - 1000 - o, P2TRScriptPubKey(bytes([0x33 + o]) * 32)) for o in range(nout)]
+    tx = Tx(2, ins, outs, 0, network="mainnet", segwit=True)
+    cb = tree.control_block(internal, leaf)
+    tx_in = tx.tx_ins[idx]
+    if kind == "multi":
+        tx.initialize_p2tr_multisig(idx, cb, leaf.tap_script)
+        sigs = [tx.get_sig_taproot(idx, priv, ext_flag=1, hash_type=ht) if i in signers else b"" for i, priv in enumerate(privs)]
+        if order is not None:
+            sigs = [sigs[i] for i in order]
+        ok = tx.finalize_p2tr_multisig(idx, sigs)
+    else:
+        tx_in.witness = Witness([leaf.tap_script.raw_serialize(), cb.serialize()])
+        musig = taproot.MuSigTapScript([points[i] for i in members])
+        msg = tx.sig_hash_bip341(idx, ext_flag=1, hash_type=ht)
+        nonces = {i: (filler_int(salt, "tk1", i, 1, N - 1), filler_int(salt, "tk2", i, 1, N - 1)) for i in members}
+        sums = musig.nonce_sums([(nonces[i][0] * pecc.G, nonces[i][1] * pecc.G) for i in members])
+        r = musig.compute_r(sums, msg)
+        s_sum = sum(musig.sign(privs[i], musig.compute_k(nonces[i], sums, msg), r, msg) for i in members if i in signers)
+        if set(members) <= set(signers):
+            sig = musig.get_signature(s_sum, r, msg).serialize()
+        else:
+            sig = r.xonly() + ec.b32(s_sum % N)
+        tx_in.witness.items.insert(0, sig + (bytes([ht]) if ht else b""))
+        ok = tx.verify_input(idx)
+    return tx, ok, [(AMOUNT + j, spk.raw_serialize()) for j in range(nin)]
+
+
+def judge_own(res, engine, cls, vc, r, idx, what, nontrivial, sample=None):
+    """A spend by the owning subset must be produced, verify under the library and under the reference."""
+    if isinstance(r, Rejected):
+        res.violation(f"C13/{engine}/own-subset-fails/{cls}", vc, repr(r), True, f"{what}: producing the spend raises")
+        return False
+    tx, ok, spent = r
+    lib = attempt(tx.verify_input, idx) is True
+    ref_ok = interp.verify_input(abstract_tx(tx), idx, spent)
+    if not ok or not lib:
+        res.violation(f"C13/{engine}/own-subset-rejected/{cls}", vc, [ok, lib], True, f"{what}: the spend signed by the leaf's own subset does not verify")
+    elif not ref_ok:
+        res.violation(f"C13/{engine}/own-subset-invalid-by-reference/{cls}", vc, True, False, f"{what}: the library accepts its own spend but the reference consensus verifier rejects it")
+    else:
+        res.ok("own subset verifies (library and reference)", nontrivial=nontrivial, sample=sample)
+        return True
+    return False
+
+
+def judge_must_fail(res, engine, cls, vc, r, idx, what, nontrivial):
+    """A spend that must not verify: whatever the library accepts, the reference must accept too."""
+    if isinstance(r, Rejected):
+        res.ok(f"{cls}: refused")
+        return
+    tx, ok, spent = r
+    lib = attempt(tx.verify_input, idx) is True
+    if (ok or lib) and not interp.verify_input(abstract_tx(tx), idx, spent):
+        res.violation(f"C13/{engine}/invalid-spend-accepted/{cls}", vc, [ok, lib], False, f"{what}: accepted by the library, invalid under the reference consensus verifier")
+    elif ok or lib:
+        res.violation(f"C13/{engine}/invalid-spend-valid/{cls}", vc, [ok, lib], False, f"{what}: valid under library and reference, although it must not be")
+    else:
+        res.ok(f"{cls}: rejected", nontrivial=nontrivial)
+
+
+# ------------------------------------------------------------------ spend variants
+def gen_spend_variants(tier, seed):
+    quick = tier == "quick"
+    trees = [(3, 2)] if quick else [(n, k) for n in range(2, 5) for k in range(1, n + 1)]
+    layouts = [(1, 0, 1), (3, 1, 3)] if quick else [(1, 0, 1), (2, 0, 2), (3, 1, 3), (3, 2, 3)]
+    cases = []
+    for n, k in trees:
+        nleaves = len(list(itertools.combinations(range(n), k)))
+        for kind in ("multi", "musig"):
+            if kind == "musig" and k < 2:
+                continue
+            for li, (nin, idx, nout) in enumerate(layouts):
+                for leaf in [li % nleaves] if quick else range(nleaves):
+                    for ht in HASH_TYPES:
+                        cases.append({"n": n, "k": k, "kind": kind, "leaf": leaf, "nin": nin, "idx": idx, "nout": nout, "ht": ht, "dim": "hash-type"})
+    if quick:  # a tree that is a single leaf (no merkle path), all hash types
+        cases += [{"n": 2, "k": 2, "kind": "multi", "leaf": 0, "nin": 1, "idx": 0, "nout": 1, "ht": ht, "dim": "hash-type"} for ht in HASH_TYPES]
+    # SIGHASH_SINGLE without a matching output is invalid (BIP341): input 1 of 2, one output
+    for n, k in trees[:1]:
+        for kind in ("multi", "musig"):
+            for ht in (3, 0x83):
+                cases.append({"n": n, "k": k, "kind": kind, "leaf": 0, "nin": 2, "idx": 1, "nout": 1, "ht": ht, "dim": "single-no-output"})
+    # every order of the list of signatures given to finalize_p2tr_multisig
+    for n, k in [(2, 2), (3, 2)] if quick else [(2, 1), (2, 2), (3, 1), (3, 2), (3, 3), (4, 2)]:
+        for order in itertools.permutations(range(n)):
+            cases.append({"n": n, "k": k, "kind": "multi", "leaf": 0, "nin": 1, "idx": 0, "nout": 1, "ht": 0, "dim": "sig-order", "order": list(order)})
+    return cases
+
+
+def run_spend_variants(case):
+    from buidl import taproot
+
+    res = Res()
+    n, k, kind, li, dim = case["n"], case["k"], case["kind"], case["leaf"], case["dim"]
+    vc = {"engine": "spend-variants", "case": case}
+    secrets, privs, points, trm = tree_ctx(n, k)
+    if isinstance(trm, Rejected):
+        res.violation(f"C13/spend-variants/construct/{'n=1' if n == 1 else 'n>1'}", vc, repr(trm), "TapRootMultiSig", f"TapRootMultiSig cannot be constructed for {k}-of-{n}")
+        return res
+    tree = trm.multi_leaf_tree() if kind == "multi" else trm.musig_tree()
+    leaf = tree.leaves()[li]
+    cat = leaf_catalog(secrets, points, [k], kind == "musig")
+    got_kind, owner = classify(cat, leaf)
+    if owner is None or got_kind != kind:
+        res.violation(f"C13/spend-variants/bijection/{kind}", vc, [x.hex() for x in keys32(leaf)], "the leaf of one k-subset", "leaf does not belong to a k-subset")
+        return res
+    r = attempt(spend_leaf, tree, trm.default_internal_pubkey, leaf, kind, privs, points, owner, set(owner), ht=case["ht"], nin=case["nin"], idx=case["idx"], nout=case["nout"], order=case.get("order"), salt=li)
+    what = f"{k}-of-{n} {kind} leaf {li}, hash type {case['ht']:#x}, input {case['idx']} of {case['nin']}, {case['nout']} outputs" + (f", signatures in order {case['order']}" if "order" in case else "")
+    key = (n, k, kind, li, case["ht"], case["nin"], case["idx"], case["nout"], tuple(case.get("order", ())))
+    if dim == "single-no-output":
+        judge_must_fail(res, "spend-variants", f"{kind}/{dim}", vc, r, case["idx"], what, key)
+    else:
+        judge_own(res, "spend-variants", f"{kind}/{dim}", vc, r, case["idx"], what, key, sample=case if case["ht"] == 0x83 else None)
+    return res
+
+
+# ------------------------------------------------------------------ composite generators
+COMPOSITE = ("single_leaf", "musig_and_single_leaf_tree", "everything_tree", "degrading_multisig_tree")
+DEGRADE_INTERVAL = 3
+
+
+def composite_shape(gen, n, k):
+    """[(kind, subset size, how many leaves)] a generator must produce: one leaf per subset of each listed size."""
+    C = lambda m: len(list(itertools.combinations(range(n), m)))
+    if gen == "single_leaf":
+        return [("multi", n, 1)]
+    if gen == "musig_and_single_leaf_tree":
+        return [("multi", n, 1), ("musig", k, C(k))]
+    if gen == "everything_tree":
+        return [("multi", n, 1), ("multi", k, C(k)), ("musig", k, C(k))]
+    return [("multi", m, C(m)) for m in range(k, 0, -1)]
+
+
+def gen_composite(tier, seed):
+    nmax = 3 if tier == "quick" else 4
+    cases = []
+    for n in range(1, nmax + 1):
+        for k in range(1, n + 1):
+            for gen in COMPOSITE:
+                if "musig" in gen or gen == "everything_tree":
+                    if k < 2:
+                        continue  # a MuSig leaf of a single key is outside the statement
+                nleaves = sum(cnt for _, _, cnt in composite_shape(gen, n, k))
+                for li in range(nleaves):
+                    cases.append({"n": n, "k": k, "gen": gen, "leaf": li})
+    return cases
+
+
+def run_composite(case):
+    res = Res()
+    n, k, gen, li = case["n"], case["k"], case["gen"], case["leaf"]
+    vc = {"engine": "composite-trees", "case": case}
+    secrets, privs, points, trm = tree_ctx(n, k)
+    if isinstance(trm, Rejected):
+        res.violation(f"C13/composite-trees/construct/{'n=1' if n == 1 else 'n>1'}", vc, repr(trm), "TapRootMultiSig", f"TapRootMultiSig cannot be constructed for {k}-of-{n}")
+        return res
+    if gen == "degrading_multisig_tree":
+        tree = attempt(trm.degrading_multisig_tree, sequence_block_interval=DEGRADE_INTERVAL)
+    else:
+        tree = attempt(getattr(trm, gen))
+    if isinstance(tree, Rejected):
+        res.violation(f"C13/composite-trees/build/{gen}", vc, repr(tree), "tree", f"{gen} of {k}-of-{n} raises")
+        return res
+    shape = composite_shape(gen, n, k)
+    leaves = tree.leaves()
+    cat = leaf_catalog(secrets, points, sorted({m for _, m, _ in shape}), any(kd == "musig" for kd, _, _ in shape))
+    cls = [classify(cat, l) for l in leaves]
+    got = sorted((kd, sub) for kd, sub in cls if sub is not None)
+    want = sorted((kd, sub) for kd, m, _ in shape for sub in itertools.combinations(range(n), m))
+    if len(leaves) != len(want) or got != want:
+        res.violation(f"C13/composite-trees/leaf-set/{gen}", vc, [[kd, list(sub) if sub else None] for kd, sub in cls][:8], [[kd, list(sub)] for kd, sub in want][:8], f"{gen} of {k}-of-{n}: the leaves are not exactly one per subset of the sizes the generator stands for")
+        return res
+    res.ok("composite tree: one leaf per subset", nontrivial=("shape", gen, n, k) if li == 0 else None)
+    leaf = leaves[li]
+    kind, members = cls[li]
+    internal = trm.default_internal_pubkey
+    # who signs: all members of the leaf, except on the k-of-n single leaf where a k-subset signs (chosen by the leaf's position)
+    need = k if (kind == "multi" and len(members) == n and gen != "degrading_multisig_tree") else len(members)
+    subsets = list(itertools.combinations(members, need))
+    signer_sets = subsets if gen == "single_leaf" else [subsets[0], subsets[-1]] if len(subsets) > 1 else subsets
+    v = csv_operand(leaf)
+    seq = 0xFFFFFFFF if v is None else v
+    for signers in signer_sets:
+        r = attempt(spend_leaf, tree, internal, leaf, kind, privs, points, members, set(signers), seq=seq, salt=li)
+        judge_own(res, "composite-trees", f"{gen}/{kind}", vc, r, 0, f"{gen} of {k}-of-{n}, leaf {li} ({kind} of keys {list(members)}) signed by {list(signers)}" + (f" with nSequence {seq}" if v is not None else ""), (gen, n, k, li, signers), sample=case if (n, k, li) == (3, 2, 1) else None)
+    if v is not None and v > 0:
+        # the relative timelock of a degraded leaf binds: one block earlier the same spend is invalid
+        r = attempt(spend_leaf, tree, internal, leaf, kind, privs, points, members, set(signer_sets[0]), seq=v - 1, salt=li)
+        judge_must_fail(res, "composite-trees", f"{gen}/early", vc, r, 0, f"{gen} of {k}-of-{n}, leaf {li} spent with nSequence {v - 1} < {v}", (gen, n, k, li, "early"))
+    return res
+
+
+# ------------------------------------------------------------------ parity walk
+WALK_CAP = 16
+
+
+def gen_parity_walk(tier, seed):
+    nmax = 3 if tier == "quick" else 5
+    return [{"n": n, "k": k, "kind": kind} for n in range(1, nmax + 1) for k in range(1, n + 1) for kind in ("multi", "musig") if not (kind == "musig" and k < 2)]
+
+
+def run_parity_walk(case):
+    """Key sets rep = 0, 1, ... (fixed functions of n and rep) until both parities of the output key (the control block's
+    parity bit) and both parities of the internal key have been seen; each rep >= 1 that shows a new parity is spent
+    (leaf rep mod #leaves, by its own subset); rep 0 is the key set real-trees spends leaf by leaf."""
+    res = Res()
+    c = ec.SECP
+    n, k, kind = case["n"], case["k"], case["kind"]
+    vc = {"engine": "tree-parity-walk", "case": case}
+    seen_out, seen_int = set(), set()
+    for rep in range(WALK_CAP):
+        secrets, privs, points, trm = tree_ctx(n, k, rep)
+        if isinstance(trm, Rejected):
+            res.violation(f"C13/tree-parity-walk/construct/{'n=1' if n == 1 else 'n>1'}", dict(vc, rep=rep), repr(trm), "TapRootMultiSig", f"TapRootMultiSig cannot be constructed for {k}-of-{n}")
+            return res
+        tree = trm.multi_leaf_tree() if kind == "multi" else trm.musig_tree()
+        internal = trm.default_internal_pubkey
+        ip = pt(internal)
+        out = ref_tweak(c, ip[0], tree.hash(), None)
+        if out is None:
+            res.skip("tweak undefined")
+            continue
+        fresh = out[1] not in seen_out or (ip[1] & 1) not in seen_int
+        seen_out.add(out[1])
+        seen_int.add(ip[1] & 1)
+        if rep == 0:
+            res.ok("rep 0: parities of the key set real-trees spends")
+        elif fresh:
+            leaves = tree.leaves()
+            li = rep % len(leaves)
+            leaf = leaves[li]
+            got_kind, owner = classify(leaf_catalog(secrets, points, [k], kind == "musig"), leaf)
+            if owner is None or got_kind != kind:
+                res.violation(f"C13/tree-parity-walk/bijection/{kind}", dict(vc, rep=rep), [x.hex() for x in keys32(leaf)], "the leaf of one k-subset", "leaf does not belong to a k-subset")
+                return res
+            r = attempt(spend_leaf, tree, internal, leaf, kind, privs, points, owner, set(owner), salt=rep)
+            judge_own(res, "tree-parity-walk", kind, dict(vc, rep=rep), r, 0, f"{k}-of-{n} {kind} tree of key set rep {rep} (output key parity {out[1]}, internal key parity {ip[1] & 1}), leaf {li}", (n, k, kind, rep))
+        if len(seen_out) == 2 and len(seen_int) == 2:
+            res.ok(f"both parities of output and internal key reached", nontrivial=("walk", n, k, kind))
+            res.notes["parity_walk_max_rep"] = max(res.notes.get("parity_walk_max_rep", 0), rep)
+            return res
+    res.caps.append(f"tree-parity-walk {k}-of-{n} {kind}: not both parities within {WALK_CAP} key sets")
+    return res
+
+
 def engines(tier, seed):
     toys = [(43, 31)] if tier == "quick" else [(43, 31), (79, 67)]
     es = []
     for toy in toys:
-        es.append(Engine(f"toy-musig-{toy[0]}", gen_toy_musig(toy), run_toy_musig, toy=toy, kind="E3", rule=f"toy curve p={toy[0]} n={toy[1]}: every pair of secrets and every 8th triple (thorough: every triple) x nonce-pair products x 2 messages x (no root | root A | root B), all sessions of a key set on ONE MuSigTapScript object: honest aggregate must be valid under the reference BIP340 verifier for the (reference-tweaked) aggregate key; all permutations same key; every single omission / alteration accepted only if the reference accepts; pairs sharing an x-only key skipped"))
+        es.append(Engine(f"toy-musig-{toy[0]}", gen_toy_musig(toy), run_toy_musig, toy=toy, kind="E3", rule=f"toy curve p={toy[0]} n={toy[1]}: every pair of secrets and every 8th triple (thorough: every triple) x nonce-pair products (pairs: 3 nonce pairs per participant; triples: 2) x 2 messages (thorough 3) x (no root | root A | root B), plus per key set the 3 nonce vectors whose first / second / both components cancel (S1 = inf, S2 = inf, both; quick: message 1, no root | root A), all sessions of a key set on ONE MuSigTapScript object: honest aggregate must be valid under the reference BIP340 verifier for the (reference-tweaked) aggregate key; a session is degenerate only if the final nonce R = S1 + h*S2 is infinite (library's R, or the reference's with the BIP327 coefficient when the library raises); all permutations same key; every single omission / alteration, and on the first nonce vector and first message (thorough: every message) every single fault of {{negated, doubled, other message, other root, other participant's nonce, total + n}}, accepted only if the reference accepts; pairs sharing an x-only key (P and -P are one BIP340 key) skipped"))
     es += [
-        Engine("real-musig", gen_real_musig, run_real_musig, kind="E1", rule="secp256k1: key sets of size 2..3 (thorough ..5), sessions (no root, root A, root B, no root) in turn on ONE MuSigTapScript object, explicit nonces: same oracle as toy-musig; omission/alteration of each partial signature for sizes <= 3"),
-        Engine("timelock-trees", gen_tl_trees, run_tl_trees, kind="E1", rule="every (k, n), 2 <= n <= 4 (thorough 5), multi_leaf_tree / musig_tree generated with locktime=500 and with sequence=5: the leaves are exactly <timelock prefix> + the plain tree's leaf for every k-subset (count C(n,k), no leaf without the timelock)"),
-        Engine("real-trees", gen_real_trees, run_real_trees, kind="E1", rule="every (k, n) with 2 <= n <= 4 (thorough 5), multi_leaf_tree for k >= 1 and musig_tree for k >= 2, every leaf: leaves <-> k-subsets bijection; spend by the owning subset verifies under Tx.verify_input and under the reference consensus verifier (script path, control block, CHECKSIG/CHECKSIGADD, BIP341/342 digest); spend by every other k-subset is rejected"),
+        Engine("real-musig", gen_real_musig, run_real_musig, kind="E1", rule="secp256k1: key sets of size 2..3 (thorough ..5), sessions (no root, root A, root B, no root) in turn on ONE MuSigTapScript object, explicit nonces: same oracle as toy-musig; omission/alteration of each partial signature for sizes <= 3, the six further fault kinds on the second key set of each size; plus explicit boundary cases: secrets {1, 2, 3, n-2, n-1}, nonces {1, 2, n-2, n-1}, messages {00.., ff.., n, n-1}, and nonce vectors of 2 and 3 participants (thorough: 4 and 5) whose first, second or both components cancel (valid aggregate demanded unless the final nonce is infinite)"),
+        Engine("timelock-trees", gen_tl_trees, run_tl_trees, kind="E1", rule="every (k, n), 1 <= n <= 4 (thorough 5), multi_leaf_tree / musig_tree generated with locktime=500 and with sequence=5: the leaves are exactly <timelock prefix> + the plain tree's leaf for every k-subset (count C(n,k), no leaf without the timelock)"),
+        Engine("real-trees", gen_real_trees, run_real_trees, kind="E1", rule="every (k, n) with 1 <= n <= 4 (thorough 5), multi_leaf_tree for k >= 1 and musig_tree for k >= 2, every leaf: leaves <-> k-subsets bijection; spend by the owning subset verifies under Tx.verify_input and under the reference consensus verifier (script path, control block, CHECKSIG/CHECKSIGADD, BIP341/342 digest); spend by every other k-subset is rejected"),
+        Engine("spend-variants", gen_spend_variants, run_spend_variants, kind="E1", rule="2-of-3 multi_leaf_tree and musig_tree (thorough: every (k, n), 2 <= n <= 4, every leaf), key set rep 0: the owning subset's spend for every hash type {00, 01, 02, 03, 81, 82, 83} x (inputs, signed input, outputs) in {(1,0,1), (3,1,3)} (thorough + (2,0,2), (3,2,3)), distinct amounts per input, and the single-leaf 2-of-2 tree for every hash type: verifies under finalize_p2tr_multisig / Tx.verify_input and the reference consensus verifier; SIGHASH_SINGLE (03, 83) on input 1 of 2 with one output: accepted only if the reference accepts; every permutation of the signature list handed to finalize_p2tr_multisig for 2-of-2 and 2-of-3 (thorough: 6 trees up to 2-of-4): verifies"),
+        Engine("composite-trees", gen_composite, run_composite, kind="E1", rule=f"every (k, n), 1 <= n <= 3 (thorough 4), generators single_leaf, degrading_multisig_tree(sequence_block_interval={DEGRADE_INTERVAL}) for k >= 1 and musig_and_single_leaf_tree, everything_tree for k >= 2, every leaf: the leaves are exactly one per subset of the sizes the generator stands for (n-key k-of-n leaf; k-subsets as multisig and/or MuSig leaves; degrading: every m-subset, 1 <= m <= k); each leaf spent by its own subset (the k-of-n single leaf: by every k-subset for single_leaf, by the first and last k-subset inside composite trees) with nSequence = the leaf's own CSV operand if it has one verifies under the library and the reference consensus verifier; a CSV leaf spent with nSequence one lower: accepted only if the reference accepts"),
+        Engine("tree-parity-walk", gen_parity_walk, run_parity_walk, kind="E1", rule=f"every (k, n), 1 <= n <= 3 (thorough 5), multi_leaf_tree and (k >= 2) musig_tree: key sets rep = 0, 1, .. (fixed functions of n and rep, independent of the seed; at most {WALK_CAP}, a cap would be reported) until both parities of the output key (control-block parity bit, by the reference tweak) and both parities of the internal key have occurred; every rep >= 1 showing a new parity: leaf (rep mod #leaves) spent by its own subset verifies under the library and the reference (rep 0 is the key set real-trees spends)"),
     ]
     return es
